@@ -3,7 +3,7 @@
 (* State machine of the panic catcher (property C19), N threads.           *)
 (*                                                                         *)
 (* Each thread runs a script: a sequence over                              *)
-(*   enable  disable  enter  genter  ret  panic  sethook  cont  bt         *)
+(*   enable  disable  enter  genter  ret  panic  swallow  sethook  cont  bt *)
 (* where enter/ret bracket a catch_panic(|| ...) body (genter: a body that *)
 (* owns a clean-up guard which itself calls catch_panic when the frame is  *)
 (* left, also in the middle of unwinding - see WfPanicSeq).  One script step is *)
@@ -86,12 +86,22 @@ PanicStep(t) ==
              /\ UNCHANGED status
      /\ UNCHANGED enabled
 
+(* a panic recovered from on the spot by a plain catch_unwind (no catcher frame): only the hook sees it *)
+SwallowStep(t) ==
+  LET m == MsgOf(t, pc[t])
+      caught == level[t] > 0
+  IN /\ bt' = IF caught THEN [bt EXCEPT ![t] = m] ELSE bt
+     /\ sent' = IF caught THEN sent ELSE [sent EXCEPT ![t] = @ + 1]
+     /\ pc' = [pc EXCEPT ![t] = @ + 1]
+     /\ UNCHANGED <<frames, enabled, level, obs, status>>
+
 Step(t) ==
   /\ Running(t)
   /\ sched' = Append(sched, t)
   /\ UNCHANGED Scripts
   /\ LET o == Op(t) IN
      IF o = "panic" THEN PanicStep(t)
+     ELSE IF o = "swallow" THEN SwallowStep(t)
      ELSE /\ pc' = [pc EXCEPT ![t] = @ + 1]
           /\ UNCHANGED <<sent, status>>
           /\ IF o = "enable" THEN enabled' = [enabled EXCEPT ![t] = TRUE] /\ UNCHANGED <<frames, level, bt, obs>>
